@@ -277,7 +277,8 @@ pub fn build_top_level_matcher(
     args: &[&str],
     config: &mut Config,
 ) -> Result<Box<dyn Matcher>, Box<dyn Error>> {
-    let (_, top_level_matcher) = (build_matcher_tree(args, config, 0, false))?;
+    let mut regex_type = regex::RegexType::default();
+    let (_, top_level_matcher) = (build_matcher_tree(args, config, &mut regex_type, 0, false))?;
 
     // if the matcher doesn't have any side-effects, then we default to printing
     if !top_level_matcher.has_side_effects() {
@@ -434,12 +435,11 @@ fn get_or_create_file(path: &str) -> Result<File, Box<dyn Error>> {
 fn build_matcher_tree(
     args: &[&str],
     config: &mut Config,
+    regex_type: &mut regex::RegexType,
     arg_index: usize,
     mut expecting_bracket: bool,
 ) -> Result<(usize, Box<dyn Matcher>), Box<dyn Error>> {
     let mut top_level_matcher = ListMatcherBuilder::new();
-
-    let mut regex_type = regex::RegexType::default();
 
     // can't use getopts for a variety or reasons:
     // order of arguments is important
@@ -528,7 +528,7 @@ fn build_matcher_tree(
                     return Err(From::from(format!("missing argument to {}", args[i])));
                 }
                 i += 1;
-                regex_type = regex::RegexType::from_str(args[i])?;
+                *regex_type = regex::RegexType::from_str(args[i])?;
                 Some(TrueMatcher.into_box())
             }
             "-regex" => {
@@ -536,14 +536,14 @@ fn build_matcher_tree(
                     return Err(From::from(format!("missing argument to {}", args[i])));
                 }
                 i += 1;
-                Some(RegexMatcher::new(regex_type, args[i], false)?.into_box())
+                Some(RegexMatcher::new(*regex_type, args[i], false)?.into_box())
             }
             "-iregex" => {
                 if i >= args.len() - 1 {
                     return Err(From::from(format!("missing argument to {}", args[i])));
                 }
                 i += 1;
-                Some(RegexMatcher::new(regex_type, args[i], true)?.into_box())
+                Some(RegexMatcher::new(*regex_type, args[i], true)?.into_box())
             }
             "-type" => {
                 if i >= args.len() - 1 {
@@ -813,7 +813,8 @@ fn build_matcher_tree(
                 None
             }
             "(" => {
-                let (new_arg_index, sub_matcher) = build_matcher_tree(args, config, i + 1, true)?;
+                let (new_arg_index, sub_matcher) =
+                    build_matcher_tree(args, config, regex_type, i + 1, true)?;
                 i = new_arg_index;
                 Some(sub_matcher)
             }
